@@ -2,6 +2,7 @@ import Driver.Proto
 import PvModel.Loop
 import PvModel.Utils
 import PvModel.Pool
+import PvModel.Accept
 /-! Driver handlers for the selection helpers / combinators (`sel.*`) and the optimise loop (`loop.*`). -/
 open Lean Proto
 
@@ -107,6 +108,25 @@ def handleLoop (op : String) (j : Json) : Except String Json := do
     .ok (rExcept (fun (p : Result Float × Nat × Book Float) =>
       Json.mkObj [("evolution", rList (rList rAgentTC) p.1.evolution), ("rates", rList rFloat p.1.rates),
                   ("best", rAgentTC p.1.best), ("steps", rNat p.2.1)]) r)
+  | "run.accept" =>
+    -- the proved-sound acceptor (PvModel/Accept.lean) on one traced run
+    let t ← getTask (← field j "task")
+    let vars := t.getVariables
+    let getEv (e : Json) : Except String InitEv := do
+      let raw ← match e.getObjVal? "raw" with
+        | .ok .null => pure none
+        | .ok v => do pure (some (← (← getArr v).mapM getRaw))
+        | .error _ => pure none
+      .ok { raw := raw, pos := (← (← getArr (← field e "pos")).mapM getCoord), cost := (← getNum (← field e "cost")), fit := (← getNum (← field e "fit")) }
+    let getRep (e : Json) : Except String Reported := do
+      .ok { pos := (← (← getArr (← field e "pos")).mapM getCoord), cost := (← getNum (← field e "cost")), fit := (← getNum (← field e "fit")) }
+    let inits ← (← getArr (← field j "inits")).mapM getEv
+    let gens ← (← getArr (← field j "gens")).mapM (fun g => do (← getArr g).mapM getRep)
+    let tr : RunTrace := { inits := inits, gens := gens }
+    let badInit := (inits.zipIdx.filter (fun p => !initOK vars p.1)).map (·.2)
+    let orphans := (gens.zipIdx.flatMap (fun g => (g.1.zipIdx.filter (fun a => !fromInit inits a.1)).map (fun a => (g.2, a.2))))
+    .ok (Json.mkObj [("accept", .bool (acceptRun vars tr)), ("badInit", rList rNat (badInit.take 3)),
+                     ("orphans", rList (fun (p : Nat × Nat) => Json.arr #[rNat p.1, rNat p.2]) (orphans.take 3))])
   | "pool.greedy" =>
     let pop ← getPop (← field j "pop")
     let new ← getPop (← field j "new")
